@@ -143,6 +143,7 @@ def marginal(lin, z, P_day, e, s, want_post=True, varK=None, jitter=True):
     S1 = float(np.sum(r ** 2 / var)) + S2 + float(np.sum(np.abs(np.log(evB))))
     tol_bound = 1e-10 + 32 * EPS * (n * S1 + condA * S2 + n * condB)
     spread, alg = roundoff_spread(Mmat, lam, var, lin.y, mu)
+    spread_e, emu = emulation_spread(Mmat, lam, var, lin.y, mu)
     # ---- mpmath ground truth
     old = mp.mp.dps
     mp.mp.dps = 50
@@ -168,10 +169,15 @@ def marginal(lin, z, P_day, e, s, want_post=True, varK=None, jitter=True):
         ll = -(chi2 + logdet + n * mp.log(2 * mp.pi)) / 2
         # tolerance = measured round-off of the kernel's own algorithm (Woodbury + LU in float64, re-implemented
         # here) under 1-ulp input perturbations, times a safety factor, plus its bias against the exact value
-        tol = 1e-10 + 1e-10 * abs(float(ll)) + TOL_FACTOR * spread + 8 * abs(alg - float(ll))
+        # ... plus the error of the kernel's *declared instruction sequence* (kernel_emul: Woodbury, B formed entry by
+        # entry, LU log-determinant) on this input: forming B in float64 rounds every entry at ulp(max |B|), which
+        # moves the small eigenvalues by an unstructured amount that the structured input perturbations above never
+        # produce (thorough seed 1: cond B 3.6e9, log-determinant off by 6.7e-8, numpy re-implementation off by 3e-10)
+        tol = (1e-10 + 1e-10 * abs(float(ll)) + TOL_FACTOR * spread + 8 * abs(alg - float(ll))
+               + 8 * abs(emu - float(ll)) + 8 * spread_e)
         if not np.isfinite(tol):
             tol = float("inf")
-        out = dict(ll=float(ll), tol=float(tol), tol_bound=float(tol_bound), spread=float(spread),
+        out = dict(ll=float(ll), tol=float(tol), tol_bound=float(tol_bound), spread=float(spread), emul=float(emu),
                    condB=condB, condAinv=condA, varK=float(vK), n=n)
         if want_post:
             Am_inv = mp.matrix(L, L)
@@ -275,6 +281,68 @@ def _kernel_alg(Mmat, lam, var, y, mu):
     r = Mmat @ mu - y
     chi2 = float(r @ Binv @ r)
     return -0.5 * (chi2 + logdet)
+
+
+def kernel_emul(Mmat, lam, var, y, mu):
+    """The kernel's own instruction sequence (fast_likelihood.pyx make_AAinv / make_bBBinv / likelihood_worker) in
+    float64, vectorised without changing the order of any rounding: on the pinned tree it reproduces the kernel's value
+    bit for bit. Fed with the *oracle's* M, Lambda, mu and variances, never with the kernel's."""
+    import scipy.linalg.lapack as lp
+    Mmat = np.asarray(Mmat, dtype=float)
+    n, L = Mmat.shape
+    MT = np.ascontiguousarray(Mmat.T)
+    iv = 1.0 / np.asarray(var, dtype=float)
+    lam = np.asarray(lam, dtype=float)
+    mu = np.asarray(mu, dtype=float)
+    y = np.asarray(y, dtype=float)
+    Ainv = np.diag(1.0 / lam)
+    for k in range(n):
+        Ainv = Ainv + (MT[:, k] * iv[k])[None, :] * MT[:, k][:, None]
+    lu, piv, info = lp.dgetrf(Ainv.T)          # LAPACK sees the C-ordered array transposed
+    if info != 0:
+        return float("inf")
+    At, info = lp.dgetri(lu, piv)
+    if info != 0:
+        return float("inf")
+    A = At.T
+    b = np.zeros(n)
+    for i in range(L):
+        b = b + MT[i] * mu[i]
+    B = np.diag(1.0 / iv)
+    for i in range(L):
+        B = B + (MT[i] * lam[i])[:, None] * MT[i][None, :]
+    Binv = np.diag(iv).copy()
+    for i in range(L):
+        li = iv * MT[i]
+        for j in range(L):
+            Binv = Binv - ((li * A[i, j])[:, None] * MT[j][None, :]) * iv[None, :]
+    lu, piv, info = lp.dgetrf(B.T)
+    if info != 0:
+        return float("inf")
+    ld = float(np.cumsum(np.log(2 * math.pi * np.abs(np.diag(lu))))[-1])
+    r = b - y
+    chi2 = float(np.cumsum(((r[None, :] * Binv) * r[:, None]).ravel())[-1])
+    return -0.5 * (chi2 + ld)
+
+
+def emulation_spread(Mmat, lam, var, y, mu, k=3):
+    """(max |emul(perturbed) - emul|, emul) over k one-ulp perturbations; (0, nan)-like values never tighten anything."""
+    with np.errstate(all="ignore"):
+        try:
+            base = kernel_emul(Mmat, lam, var, y, mu)
+            if not np.isfinite(base):
+                return float("inf"), base
+            worst = 0.0
+            for _ in range(k):
+                def p(a):
+                    return a * (1.0 + (_prng.integers(-1, 2, size=np.shape(a))) * EPS)
+                d = abs(kernel_emul(p(Mmat), p(lam), p(var), p(y), p(mu)) - base)
+                if not np.isfinite(d):
+                    return float("inf"), base
+                worst = max(worst, d)
+            return worst, base
+        except Exception:
+            return float("inf"), float("nan")
 
 
 _prng = np.random.default_rng(12345)
